@@ -54,6 +54,7 @@ class Defs:
             ds = self.defs.get(l, [])
             if not ds:
                 return ('param', l, proj)
+            return ('multi', l, proj)      # a parameter that is also assigned: the entry value is one more definition
         d = self.single_def(l)
         if d is None:
             return ('multi', l, proj)
@@ -69,7 +70,7 @@ class Defs:
         if rv['r'] == 'use' and rv['a']['o'] == 'const':
             if proj: return ('rv', d[1], d[3], proj)
             return self.origin(rv['a'])
-        if through_refs and rv['r'] == 'ref':
+        if through_refs and rv['r'] in ('ref', 'rawptr'):
             # &place followed by a deref cancels
             if proj and proj[0]['p'] == 'deref':
                 q = rv['p']
@@ -249,7 +250,7 @@ def _expr_rv(facts, body, rv, depth, memo):
         return ('un', rv['op'], expr_of(facts, body, rv['a'], depth, memo))
     if k == 'cast':
         return ('cast', rv['to']['s'], expr_of(facts, body, rv['a'], depth, memo))
-    if k == 'ref': return expr_of_place(facts, body, rv['p'], depth, memo)
+    if k in ('ref', 'rawptr'): return expr_of_place(facts, body, rv['p'], depth, memo)
     if k == 'discr': return ('discr', expr_of_place(facts, body, rv['p'], depth, memo))
     if k == 'agg':
         kd = rv['kind']
@@ -266,19 +267,35 @@ def strip_casts(e):
 
 
 def expr_str(e, names=None):
+    """names: optional {local number (str): source name}; loop-carried locals are then printed by name (stable under renumbering)"""
     if not isinstance(e, tuple): return str(e)
+    if not e: return '()'
     k = e[0]
+    S = lambda x: expr_str(x, names)
     if k == 'c': return str(e[1])
     if k == 'param': return 'arg%d%s' % (e[1], ''.join('.%s' % (x,) for x in e[2]))
-    if k == 'multi': return '_%d%s' % (e[1], ''.join('.%s' % (x,) for x in (e[2] if len(e) > 2 else ())))
-    if k == 'op': return '%s(%s, %s)' % (e[1], expr_str(e[2]), expr_str(e[3]))
-    if k == 'un': return '%s(%s)' % (e[1], expr_str(e[2]))
-    if k == 'cast': return '(%s as %s)' % (expr_str(e[2]), e[1])
-    if k == 'call': return '%s(%s)' % (e[1].split('::')[-1] if '>::' not in e[1] else e[1].split('>::')[-1], ', '.join(expr_str(x) for x in e[2:]))
-    if k == 'fld': return '%s%s' % (expr_str(e[1]), ''.join('.%s' % (x,) for x in e[2]))
-    if k == 'len': return 'len(%s)' % expr_str(e[1])
-    if k == 'agg': return '%s(%s)' % (e[1], ', '.join(expr_str(x) for x in e[2:]))
-    return str(e)
+    if k == 'multi':
+        nm = ('$' + names.get(str(e[1]), 'tmp')) if names is not None else '_%d' % e[1]
+        return '%s%s' % (nm, ''.join('.%s' % (x,) for x in (e[2] if len(e) > 2 else ())))
+    if k == 'op': return '%s(%s, %s)' % (e[1], S(e[2]), S(e[3]))
+    if k == 'un': return '%s(%s)' % (e[1], S(e[2]))
+    if k == 'cast': return '(%s as %s)' % (S(e[2]), e[1])
+    if k == 'call': return '%s(%s)' % (e[1].split('::')[-1] if '>::' not in e[1] else e[1].split('>::')[-1], ', '.join(S(x) for x in e[2:]))
+    if k == 'fld': return '%s%s' % (S(e[1]), ''.join('.%s' % (_fs(x),) for x in e[2]))
+    if k == 'len': return 'len(%s)' % S(e[1])
+    if k == 'agg': return '%s(%s)' % (e[1], ', '.join(S(x) for x in e[2:]))
+    if k == 'repeat': return '[%s; %s]' % (S(e[1]), e[2])
+    if k == 'item': return 'const %s' % (e[1],)
+    if k == 'discr': return 'discr(%s)' % S(e[1])
+    if k in ('pending', 'deep'): return '..'
+    return '%s(%s)' % (k, ', '.join(S(x) if isinstance(x, tuple) else str(x) for x in e[1:]))
+
+
+def _fs(x):
+    if isinstance(x, tuple) and x and x[0] == 'as': return 'as%d' % x[1]
+    if isinstance(x, tuple) and x and x[0] == 'idx': return '[]'
+    if isinstance(x, tuple): return '[%s]' % ','.join(map(str, x[1:]))
+    return str(x)
 
 
 # ---------------------------------------------------------------------------------------------------
@@ -301,6 +318,11 @@ def ematch(pat, e, env=None, strip=True):
             return env
         if pat[0] == '*':
             return env
+        if pat[0] == 'alt':
+            for alt in pat[1:]:
+                r = ematch(alt, e, env, strip)
+                if r is not None: return r
+            return None
         if pat[0] == 'callp':
             if not (isinstance(e, tuple) and e and e[0] == 'call' and e[1].endswith(pat[1])): return None
             if len(pat) - 2 != len(e) - 2: return None
@@ -337,3 +359,8 @@ def V(name):
 
 
 ANY = ('*',)
+
+
+def LEN(x):
+    """length of a slice, however obtained (`Len`/PtrMetadata or a call to len())"""
+    return ('alt', ('len', x), ('callp', '::len', x))
